@@ -1091,6 +1091,80 @@ def exhaustive(rep, drv, cap):
     return summary
 
 
+SELF_DST = ["out", "data2/deep", "data", "/tmp/../data", "./data", "data/", "/data/.", "data/sub", "data/sub/new", "tmp/../data/sub/../../data",
+            "/", "tmp", "data/../out"]
+
+
+def same_instance_phase(rep, quick):
+    """src_fs IS dst_fs: with workers=0 the copier delegates to FS.copy, with workers>0 it opens both files
+    itself — the model's tasks assume distinct source and destination files, so this phase is decided by the
+    property's own oracle alone: outcome class and resulting tree equal to the single-threaded run's, for every
+    spelling of the destination (normalised or not, equal to / inside / above / beside the source)."""
+    import fs.copy, fs.move, fs.mirror
+    from fs.memoryfs import MemoryFS
+    from fs.osfs import OSFS
+    import tempfile
+
+    def fresh(kind):
+        if kind == "mem":
+            f = MemoryFS()
+        else:
+            f = OSFS(tempfile.mkdtemp(dir=SCRATCH))
+        f.makedirs("data/sub/leaf")
+        f.makedirs("tmp")
+        f.makedirs("data/e")
+        for k, q in enumerate(["data/a", "data/b", "data/sub/c", "data/sub/leaf/d", "tmp/t"]):
+            f.writebytes(q, b"%d-" % k * (k + 3))
+        return f
+
+    def one(kind, api, dst, w):
+        f = fresh(kind)
+        try:
+            try:
+                if api == "copy_dir":
+                    fs.copy.copy_dir(f, "/data", f, dst, workers=w)
+                elif api == "copy_fs":
+                    fs.copy.copy_fs(f.opendir("data"), f.makedirs(dst, recreate=True) if dst not in ("/",) else f, workers=w)
+                elif api == "move_dir":
+                    fs.move.move_dir(f, "/data", f, dst, workers=w)
+                elif api == "mirror":
+                    fs.mirror.mirror(f.opendir("data"), f.makedirs(dst, recreate=True), workers=w)
+                out = "ok"
+            except Exception as e:
+                out = "err " + type(e).__name__
+            return out, snapshot(f)
+        finally:
+            f.close()
+
+    n = 0
+    for kind in (("mem",) if quick else ("mem", "os")):
+        for api in ("copy_dir", "copy_fs", "move_dir", "mirror"):
+            for dst in SELF_DST:
+                if api in ("copy_fs", "mirror"):
+                    # two VIEWS of one storage where the destination lies in or above the source: nothing can tell
+                    # the copier (C05's open findings aliased-views-*: runaway / truncation for every worker count)
+                    from fs.path import normpath, abspath, isbase
+                    nd = abspath(normpath(dst))
+                    if nd == "/" or isbase("/data", nd) or isbase(nd, "/data"):
+                        continue
+                ref = one(kind, api, dst, 0)
+                for w in ((1, 4) if quick else (1, 2, 4, 8)):
+                    got = one(kind, api, dst, w)
+                    n += 1
+                    rep.evaluations += 1
+                    rep.count("self/%s/%s" % (api, ref[0].split()[0]))
+                    rep.nontrivial("self", kind, api, dst, w)
+                    if got != ref:
+                        why = ("outcome %s vs %s" % (got[0], ref[0]) if got[0] != ref[0] else
+                               "tree differs: %r vs %r" % ([(q, (d if d == "d" else len(d))) for q, d in got[1]][:14],
+                                                           [(q, (d if d == "d" else len(d))) for q, d in ref[1]][:14]))
+                        rep.violation({"self_instance": {"kind": kind, "api": api, "dst": dst, "workers": w}},
+                                      "%s on one %s instance, /data -> %r: workers=%d differs from workers=0 — %s"
+                                      % (api, kind, dst, w, why), found_input=True,
+                                      signature="C09/self/%s/%s" % (api, "outcome" if got[0] != ref[0] else "tree"))
+    rep.extra["same_instance_runs"] = n
+
+
 def run(rep, tier, seed, deep=False):
     drv = vlib.Driver()
     quick = tier == "quick"
@@ -1117,11 +1191,14 @@ def run(rep, tier, seed, deep=False):
         rep.assumptions = [
             "queue.Queue, threading.Thread.join, the GIL: external (Queue is a bounded FIFO, join returns after run)",
             "the file objects of the backends are replaced by recording proxies; a failing close() still releases the real handle",
-            "same-instance copies (src_fs is dst_fs -> FS.copy) and conditions other than 'always' are outside this model (C19)",
+            "same-instance copies (src_fs is dst_fs -> FS.copy with workers=0) are outside the MODEL; they are decided by the "
+            "property's oracle alone (outcome and tree equal to the single-threaded run for 13 destination spellings); "
+            "conditions other than 'always' belong to C19",
             "destination paths of one call are pairwise distinct (walker yields each file once, C13)",
         ]
         rep.extra["exhaustive_small_scopes"] = exhaustive(rep, drv, 400 if quick else 6000)
         ok = run_all(rep, drv, scns)
+        same_instance_phase(rep, quick)
         rep.extra["runs"] = len(scns)
         rep.extra["completed"] = ok
         rep.sample({"scenario": {k: scns[60][k] for k in ("api", "workers", "faults", "policy")}})
@@ -1132,7 +1209,16 @@ def run(rep, tier, seed, deep=False):
 
 def replay(rep, case):
     drv = vlib.Driver()
-    scn = case.get("case", case).get("scenario")
+    c = case.get("case", case)
+    if c.get("self_instance"):
+        os.makedirs(SCRATCH, exist_ok=True)
+        try:
+            same_instance_phase(rep, False)
+        finally:
+            shutil.rmtree(SCRATCH, ignore_errors=True)
+        print("replay: %d violation(s)" % len(rep.violations))
+        return 1 if rep.violations else 0
+    scn = c.get("scenario")
     if scn is None:
         print("replay: no scenario in case")
         return 2
